@@ -80,7 +80,7 @@ CLAIMED = {
             "DESIGN.md §7 C14"),
     "C15": ("exploration",
             "property-based testing (proptest): insert/get/clear histories with explicit instants under the virtual clock against a pure TTL-cache reference model",
-            "Histories of ≤30 (thorough 40) operations over 3 queries with nanosecond times (steps of 0 / sub-second / seconds / jumps to the model's expiry ±{0,1 ns,0.5 s,1 s}) × TtlConfig built through its serde form (default / per-type, min>ttl, max<ttl, min=max, 0). Every hit must be the most recent cacheable insert, within its lifetime L, with every TTL = per-type clamped − ⌊elapsed⌋ floored at 0 and non-increasing; transient errors never come back. The hit ratio on certainly-live entries is measured (100 % in quick) so the check cannot go vacuous. clear/clear_query are exercised through CachingClient.",
+            "Histories of ≤30 (thorough 40) operations over 3 queries with nanosecond times (steps of 0 / sub-second / seconds / jumps to the model's expiry ±{0,1 ns,0.5 s,1 s}) × TtlConfig built through its serde form (default / per-type, min>ttl, max<ttl, min=max, 0). Every hit must be the most recent cacheable insert, within its lifetime L, with every TTL = per-type clamped − ⌊elapsed⌋ floored at 0 and non-increasing; transient errors never come back. The hit ratio on certainly-live entries is measured (100 % in quick) so the check cannot go vacuous. clear/clear_query and the alias path (CNAME chain and target in one upstream response, preserve_intermediates on/off) are exercised through CachingClient::lookup over a scripted upstream: the entry must not be served after the smallest TTL of the chain.",
             "Trusts refm/cache_ref.rs. Where the statement admits two readings of L (CNAME bounds vs query-type bounds) the weaker bound is asserted and the difference counted. None is always acceptable (eviction).",
             "DESIGN.md §7 C15"),
     "C16": ("exploration",
